@@ -7,7 +7,9 @@ SETUP = ["RESET", "SESS 1", "C 1 auth adm pw", "C 1 create-db t tok", "C 1 use-d
          "C 1 set-permissions u r k*", "SESS 4", "C 4 use-db t tok", "C 4 watch k", "C 4 watch $connections"]
 
 CMDS = ["auth adm pw", "auth adm bad", "use-db t tok", "use-db t bad", "use-db t u upw", "get k", "get-safe k", "set k 7", "set-safe k 9 v", "set-safe k 0 old",
-        "remove k", "increment k", "increment n", "keys", "create-db d2 tk", "get $$token", "set zz 1", "watch k", "unwatch k", "snapshot", "bogus", "get"]
+        "remove k", "increment k", "increment n", "keys", "create-db d2 tk", "get $$token", "set zz 1", "watch k", "unwatch k", "snapshot", "bogus", "get",
+        # every command word cut short (a refusal by the PARSER: its text becomes the reply entry verbatim)
+        "use-db t", "use-db", "set", "set-safe k", "set-safe k x", "remove", "increment", "auth adm", "create-db", "create-user u", "set-permissions", "resolve 1", "watch", "replicate t", "election"]
 BLANKS = ["", " ", "  "]
 
 def body_of(cmds, trailing, blank_at=None, blank=""):
